@@ -1375,6 +1375,27 @@ func ruleR17_3(c *Check) {
 					}
 				}
 				r.Check(okv, f, "checksum mismatch returns errBadChecksum", is, "mismatch branch does not return errBadChecksum")
+				// … on every path: nothing inside the branch leaves it another way (a `break` for "the
+				// last record, probably torn" silently drops a durable change set whose bits flipped)
+				ast.Inspect(is.Body, func(m ast.Node) bool {
+					switch x := m.(type) {
+					case *ast.FuncLit:
+						return false
+					case *ast.BranchStmt:
+						r.Check(false, f, "checksum mismatch is always reported", x, "the mismatch branch can be left by `"+x.Tok.String()+"`: a record with a bad checksum is skipped instead of reported")
+					case *ast.ReturnStmt:
+						bad := true
+						for _, e := range x.Results {
+							if id, ok := unparen(e).(*ast.Ident); ok && w.Use(id) == w.Obj("badger.errBadChecksum") {
+								bad = false
+							}
+						}
+						if bad {
+							r.Check(false, f, "checksum mismatch is always reported", x, "the mismatch branch returns something other than errBadChecksum")
+						}
+					}
+					return true
+				})
 			}
 		}
 		return true
